@@ -13,9 +13,9 @@ def run_all():
     global _done
     if _done:
         return
-    from . import registry  # noqa: F401  (each module exposes generate())
+    from . import registry, flow  # noqa: F401  (each module exposes generate())
 
     with Lock(LEAN / ".lock"):
-        for mod in (registry,):
+        for mod in (registry, flow):
             mod.generate()
     _done = True
